@@ -186,7 +186,7 @@ func (f *Replace) checkStartEnd(s *slip.Scope, start, end, size, depth int) int 
 	if end == -1 {
 		end = size
 	} else {
-		if size <= end {
+		if size < end {
 			slip.ErrorPanic(s, depth, "End of %d is out of bounds for sequence-1 with length %d.", end, size)
 		}
 		if end < start {
